@@ -539,8 +539,9 @@ def _mask(ctx) -> None:
     cd = prog.func("vector.Vector._check_duplicate")
     ci = _iof(prog, cd)
     CO = ("param", cd.params[1])
-    bad_dup = [show(e.term, ci)[:40] for e in ci.events if e.kind == "return" and e.depth == 0
-               and e.term not in (CO, ("call", ("attr", CO, "copy"), (), ()))]
+    from ..sites2 import leaves as _cd_leaves
+    bad_dup = [show(x_, ci)[:40] for e in ci.events if e.kind == "return" and e.depth == 0 for x_ in _cd_leaves(e.term)
+               if x_ not in (CO, ("call", ("attr", CO, "copy"), (), ()))]
     ctx.ob("d.dispatch-exhaustive", cd, "self-operand", not bad_dup, "_check_duplicate returns the operand or operand.copy()", cd.node,
            message=f"_check_duplicate returns {bad_dup}: copy.deepcopy (or anything but .copy()) of an operand that is a Table does not terminate "
                    f"- t == t would raise RecursionError")
